@@ -292,6 +292,8 @@ fn op_strategy(tier: Tier) -> BoxedStrategy<Op> {
         4 => 1u32..=130,
         2 => crate::gen::select(vec![63u32, 64, 65, 127, 128, 129, 1023, 1024, 1025, 1088, 2048]),
         3 => 0u32..=maxn,
+        // long reads: many iterations of the widest xof_many loop in one call
+        1 => 0u32..=tier.pick(300_000u32, 4_000_000u32),
     ];
     prop_oneof![
         6 => n.clone().prop_map(Op::Fill),
